@@ -163,3 +163,87 @@ Proof.
   - apply to_text_with. exact (proj1 (proj2 (parse_wf s u H))).
   - rewrite <- unparse_as_with. symmetry. exact (parse_unparse s u H).
 Qed.
+
+(* ---------------------------------------------------------------- the statement of C04 from the two address facts *)
+Lemma avoid_join stops ps : mem 47 stops = false -> Forall (avoid stops) ps -> avoid stops (join_slash ps).
+Proof.
+  intros H47 Hf. destruct ps as [|s r]; [reflexivity|]. rewrite join_slash_cons.
+  inversion Hf; subst. apply avoid_app; [assumption|]. apply avoid_slashed; assumption.
+Qed.
+
+(* without a bracketed literal there is no "[" in the text at all *)
+Lemma unparse_no_bracket u : chars_ok u -> is_lit u = false -> avoid [91] (unparse u).
+Proof.
+  intros (Hsc & Hui & Hh & Hpo & Hps & Hqu & Hfr) Hl.
+  assert (Forall (avoid [91]) (pathSegs u)) as Hps' by (apply segs_avoid; [reflexivity|exact Hps]).
+  unfold unparse. repeat apply avoid_app.
+  - unfold scheme_part. destruct (scheme u) as [sc|]; [|reflexivity]. cbn [opt_post opt_ok] in *.
+    apply avoid_app; [|reflexivity]. destruct (scheme_ok_class _ Hsc) as [_ Hc]. revert Hc. apply class_avoid. reflexivity.
+  - unfold authority_part, host_part. rewrite Hl. unfold is_lit in Hl. apply orb_false_iff in Hl. destruct Hl as [H6 Hfu].
+    rewrite H6, Hfu in Hh. destruct (hostText u) as [h|]; [|reflexivity].
+    apply avoid_app; [reflexivity|]. apply avoid_app; [|apply avoid_app].
+    + destruct (userInfo u) as [t|]; [|reflexivity]. cbn [opt_post opt_ok] in *.
+      apply avoid_app; [|reflexivity]. destruct Hui as [Hc _]. revert Hc. apply class_avoid. reflexivity.
+    + destruct Hh as [Hc _]. revert Hc. apply class_avoid. reflexivity.
+    + destruct (portText u) as [t|]; [|reflexivity]. cbn [opt_pre opt_ok] in *.
+      apply avoid_app; [reflexivity|]. revert Hpo. apply class_avoid. reflexivity.
+  - unfold path_part. destruct (is_some (hostText u)).
+    + apply (avoid_slashed [91] _ eq_refl Hps').
+    + apply avoid_app; [destruct (absolutePath u); reflexivity|]. apply avoid_join; [reflexivity|exact Hps'].
+  - destruct (query u) as [t|]; [|reflexivity]. cbn [opt_pre opt_ok] in *.
+    apply avoid_app; [reflexivity|]. destruct Hqu as [Hc _]. revert Hc. apply class_avoid. reflexivity.
+  - destruct (fragment u) as [t|]; [|reflexivity]. cbn [opt_pre opt_ok] in *.
+    apply avoid_app; [reflexivity|]. destruct Hfr as [Hc _]. revert Hc. apply class_avoid. reflexivity.
+Qed.
+
+(* with one, the text is: no "[" ; "[" ; the literal, without "]" ; "]" ; the rest *)
+Lemma parse_lit_shape s u h : parse s = POk u -> hostText u = Some h -> is_lit u = true ->
+  exists pre post, avoid [91] pre /\ avoid [93] h /\ s = pre ++ [91] ++ h ++ [93] ++ post.
+Proof.
+  intros H Eh Hl. pose proof (parse_unparse s u H) as Hs.
+  destruct (parse_wf s u H) as ((Hsc & Hui & Hh & _) & _ & _ & _).
+  unfold unparse, authority_part, host_part in Hs. rewrite Eh, Hl in *.
+  exists (scheme_part u ++ [47; 47] ++ opt_post (userInfo u) [64]),
+         (opt_pre [58] (portText u) ++ path_part u ++ opt_pre [63] (query u) ++ opt_pre [35] (fragment u)).
+  split; [|split].
+  - apply avoid_app.
+    + unfold scheme_part. destruct (scheme u) as [sc|]; [|reflexivity]. cbn [opt_post opt_ok] in *.
+      apply avoid_app; [|reflexivity]. destruct (scheme_ok_class _ Hsc) as [_ Hc]. revert Hc. apply class_avoid. reflexivity.
+    + apply avoid_app; [reflexivity|]. destruct (userInfo u) as [t|]; [|reflexivity]. cbn [opt_post opt_ok] in *.
+      apply avoid_app; [|reflexivity]. destruct Hui as [Hc _]. revert Hc. apply class_avoid. reflexivity.
+  - unfold is_lit in Hl. destruct (is_some (ip6 u)); [revert Hh; apply class_avoid; reflexivity|].
+    cbn [orb] in Hl. rewrite Hl in Hh. revert Hh. apply class_avoid. reflexivity.
+  - rewrite <- Hs. rewrite <- !app_assoc. reflexivity.
+Qed.
+
+(* when the host is not an IPv6 literal the canonical form of the text is the text *)
+Lemma canon_ip6_id s u : parse s = POk u -> ip6 u = None -> canon_ip6 s = s.
+Proof.
+  intros H H6. destruct (parse_wf s u H) as (Hc & (_ & Hf) & _ & _).
+  destruct (is_lit u) eqn:Hl.
+  - destruct (hostText u) as [h|] eqn:Eh.
+    + destruct (parse_lit_shape s u h H Eh Hl) as (pre & post & Hpre & Hh & ->).
+      unfold canon_ip6. rewrite span_app; [|exact Hpre|reflexivity].
+      cbn [app]. rewrite strip_char_cons. rewrite span_app; [|exact Hh|reflexivity].
+      destruct h as [|c r]; [reflexivity|].
+      unfold is_lit in Hl. rewrite H6 in Hl, Hf. destruct (ipFuture u); [|discriminate Hl].
+      destruct Hf as (_ & _ & _ & Hv). unfold v_start in Hv. rewrite Hv. reflexivity.
+    + unfold is_lit in Hl. destruct Hf as (_ & E6 & Efu). rewrite E6, Efu in Hl. discriminate Hl.
+  - pose proof (unparse_no_bracket u Hc Hl) as Ha. rewrite (parse_unparse s u H) in Ha.
+    unfold canon_ip6. rewrite (span_all [91] s Ha). reflexivity.
+Qed.
+
+(* Property C04 in full, from the two facts about the address code (hypotheses, proved elsewhere) *)
+Theorem parse_to_text_canon :
+  forall (Hrender : forall h o, parse_ip4 h = Some o -> concat (ip4_pieces o 0) = h)
+         (Hcanon : forall s u h, parse s = POk u -> hostText u = Some h -> ip6 u <> None ->
+                     concat (ip6_byte_pieces (ip6_bytes h) 0) = groups_text (ip6_value h)),
+  forall s u, parse s = POk u -> to_text u = canon_ip6 s.
+Proof.
+  intros Hrender Hcanon s u H. destruct (ip6 u) as [b|] eqn:E6.
+  - apply parse_to_text_ip6_canon; [|exact H|rewrite E6; discriminate].
+    intros h Eh. apply (Hcanon s u h H Eh). rewrite E6. discriminate.
+  - rewrite (canon_ip6_id s u H E6). destruct (ip4 u) as [o|] eqn:E4.
+    + apply (parse_to_text_ip4 s u Hrender H). rewrite E4. discriminate.
+    + exact (parse_to_text_no_ip s u H E4 E6).
+Qed.
